@@ -4,6 +4,7 @@
   of the selected shards, with the index's lingering tag entries).  Statement: Influx.Spec.C42.
 -/
 import Influx.Lemmas.StoreDelC42
+import Influx.Lemmas.StoreDelHolds42
 
 namespace Influx.Props.C42
 open Influx.Model.StoreDel Influx.Model.DelPred
@@ -71,6 +72,22 @@ theorem C42_full_fails_neq :
          [([109], [116], [97]), ([109], [116], [98])]⟩]
       (some (.cmp [116] true [97])) = [] := by
   decide
+
+/-! ### the run-time oracle accepts the model's trace -/
+
+/-- **C42_holdsOn (partial)** — the statement checker `Spec.C42.holdsOn` accepts the model's own
+    trace on every case `open n; ops` made of writes (sorted tags) and MeasurementNames queries
+    with no condition or a condition in `condOK`, under any authorizer: no deletes (so nothing
+    lingers in the index — `C42_full_fails`), no TagKeys/TagValues (their content is covered by
+    the correspondence run only). -/
+theorem C42_holdsOn_partial (n : Nat) (ops : List Op) (hok : ops.all opOK42 = true) :
+    Influx.Spec.C42.holdsOn (runT42 none (.open_ n :: ops)) = true := by
+  obtain ⟨hr, hinv⟩ := rel42_init n
+  simp only [runT42, ansOf42, Influx.Model.StoreDel.stepOp, Influx.Spec.C42.holdsOn, Influx.Spec.C42.judgeCase]
+  exact judgeCase_runT42 ops hok _ _ hr hinv
+
+example : [Op.write 1 [109] [([116], [97])] [(1, 1)], .mn (.deny [([116], [97])] []) none,
+    .mn .nil_ (some (.or (.cmp [116] false [97]) (.cmp nameKey true [120])))].all opOK42 = true := by decide
 
 -- non-vacuity of the hypotheses of C42_names_cond_partial
 example : condOK (.and (.cmp nameKey false [109]) (.or (.cmp [116] false [97]) (.cmp nameKey true [120]))) = true := by decide
